@@ -86,6 +86,7 @@ class FunContract:
         self.decreases = {}
         self.modifies = []          # names of params whose buffers may be written
         self.lemmas = []            # list of (at, clause name)
+        self.hints = {}             # (loop ordinal|'return', when) -> [clause names]
         self.opts = {}
         self.funcs = {}             # clause name -> python function (runtime reading)
         self.file = None
@@ -149,6 +150,18 @@ def decreases(qual, loop):
 
 def lemma(qual, at=None):
     return _reg("lemma", qual, at=at)
+
+
+def hint(qual, loop=None, when="head"):
+    """an assertion the verifier proves at the given point and may use afterwards (Dafny-style `assert`):
+    loop=k, when='head' (after assuming the invariant) | 'end' (before re-establishing it) | 'exit';
+    loop=None: before the postconditions at every return."""
+    def deco(fn):
+        c = _c(qual)
+        c.funcs[fn.__name__] = fn
+        c.hints.setdefault((loop if loop is not None else "return", when), []).append(fn.__name__)
+        return fn
+    return deco
 
 
 # ---------------------------------------------------- run-time reading of the vocabulary
@@ -299,3 +312,7 @@ def same_object(a, b):
 
 def ncols(m):
     return m.shape[1]
+
+
+def is_tuple(v):
+    return isinstance(v, tuple)
